@@ -705,7 +705,14 @@ class Spectrum(Generic[_TData]):
     def _increase_capacity(self, amount: int) -> None:
         new_capacity = self._start_index + self._sample_count + amount
         if new_capacity > self.capacity:
+            self._check_writeable_before_growing()
             self.capacity = new_capacity
+
+    def _check_writeable_before_growing(self) -> None:
+        # NumPy lets a read-only array that owns its data be resized. Fail before the buffer grows,
+        # so that a rejected append or load leaves the capacity (and the caller's array) alone.
+        if not self._data.flags.writeable:
+            raise ValueError("assignment destination is read-only")
 
     def load_data(
         self,
@@ -757,6 +764,7 @@ class Spectrum(Generic[_TData]):
                 if np.may_share_memory(array, self._data):
                     # The array views this object's own buffer, which is reallocated below.
                     array = array.copy()
+                self._check_writeable_before_growing()
                 self.capacity = sample_count
             self._data[0:sample_count] = array[start_index : start_index + sample_count]
             self._start_index = 0
